@@ -670,9 +670,7 @@ func (ndb *nodeDB) DeleteVersionsFrom(fromVersion int64) error {
 		// next start.
 		fromVersion = 1
 	}
-	if err = ndb.traverseRange(nodeKeyPrefixFormat.KeyInt64(fromVersion), nodeKeyPrefixFormat.KeyInt64(latest+1), func(k, _ []byte) error {
-		return ndb.batch.Delete(k)
-	}); err != nil {
+	if err = ndb.deleteRange(nodeKeyPrefixFormat.KeyInt64(fromVersion), nodeKeyPrefixFormat.KeyInt64(latest+1), ndb.batch.Delete); err != nil {
 		return err
 	}
 
@@ -1120,6 +1118,38 @@ func (ndb *nodeDB) traverseRange(start []byte, end []byte, fn func(k, v []byte) 
 	}
 
 	return itr.Error()
+}
+
+// deleteRange calls del for every key in [start, end). The keys are collected first, a bounded
+// number at a time, and deleted once the iterator is closed: a delete may flush the batch, and a
+// backend whose iterators hold a read lock (MemDB) blocks that write for as long as the iterator
+// is open.
+func (ndb *nodeDB) deleteRange(start, end []byte, del func(key []byte) error) error {
+	const chunk = 4096
+	errChunkFull := errors.New("chunk full")
+	for {
+		keys := make([][]byte, 0, 64)
+		err := ndb.traverseRange(start, end, func(k, _ []byte) error {
+			keys = append(keys, ibytes.Cp(k))
+			if len(keys) == chunk {
+				return errChunkFull
+			}
+			return nil
+		})
+		if err != nil && err != errChunkFull {
+			return err
+		}
+		for _, k := range keys {
+			if err := del(k); err != nil {
+				return err
+			}
+		}
+		if len(keys) < chunk {
+			return nil
+		}
+		// the deletes are not visible before the batch is written: continue after the last key
+		start = append(keys[len(keys)-1], 0)
+	}
 }
 
 // Traverse all keys with a certain prefix. Return error if any, nil otherwise
